@@ -213,6 +213,12 @@ func C13(c *Ctx) *kf.Report {
 		rep.Infraf("spec Response: deviation html-default-status should violate Refines, got %q", dev.Violated)
 	}
 	rep.Coverage["deviation_counterexample"] = dev.Violated
+	// 1c. (thorough) unbounded: Apalache discharges the inductive invariant of the commit mechanism reduced to its deciding
+	// variables (ResponseInd.tla); ImplIndInv above ties that reduction to the full Impl layer within the TLC bound
+	if c.Thorough() {
+		ok := apalacheInductive(rep, c.SpecDir(), "ResponseInd.tla", "Init", "IndInit", "IndInv", "CommitOnce")
+		rep.Coverage["apalache_inductive_commit_once"] = ok
+	}
 	g, err := graph.Build(res.Tagged["INIT"], res.Tagged["EDGE"])
 	if err != nil {
 		rep.Infraf("graph: %v", err)
